@@ -6,6 +6,8 @@ From Coq Require Import Floats.PrimFloat Floats.SpecFloat Floats.FloatOps.
 From Flocq Require Import Core.Core IEEE754.BinarySingleNaN.
 From Verif Require Import Lib.Bytes Float.DecRound Float.B64 Model.Amount
   Proofs.AmountDecRound Proofs.AmountFloat Proofs.Amount Proofs.AmountString Proofs.AmountTheorems.
+From Verif Require Import Model.AmountSession Proofs.AmountSession.
+From Verif Require Gen.GenNetworks Model.CoinSelect Model.TxCreate Model.BumpFee Proofs.BumpFee Model.AmountTx Proofs.AmountTx.
 Import ListNotations.
 Open Scope Z_scope.
 
@@ -188,6 +190,171 @@ Example den_h_refuted :
   end.
 Proof. vm_compute. split; reflexivity. Qed.
 
+(* ================= sequences of conversions in one process (Model/AmountSession.v) ================= *)
+
+(* the answer to a conversion does not depend on what was converted before or after it *)
+Theorem conversion_session_stateless : forall (pre : list conv_req) r post d,
+  nth (List.length pre) (lib_conv_session (pre ++ r :: post)) d = lib_conv r.
+Proof. exact conv_session_independent. Qed.
+
+(* in particular every amount of the supply converts exactly at ANY position of ANY session *)
+Theorem btc_string_exact_in_session : forall (pre post : list conv_req) n d, 0 <= n <= 21 * 10 ^ 14 ->
+  nth (List.length pre) (lib_conv_session (pre ++ CVts (fmt_fixed false n 8 ++ 32 :: [66; 84; 67]) None :: post)) d = AZ (Ok n).
+Proof. exact conv_session_btc_exact. Qed.
+
+Theorem sat_string_exact_in_session : forall (pre post : list conv_req) n d, 0 <= n <= 21 * 10 ^ 14 ->
+  nth (List.length pre) (lib_conv_session (pre ++ CVts (dec_digits n ++ 32 :: [115; 97; 116]) None :: post)) d = AZ (Ok n).
+Proof. exact conv_session_sat_exact. Qed.
+
+(* observing a Value object (value_sat, str(), to_bytes()) any number of times leaves it as it is *)
+Theorem value_observations_transparent : forall v (obs ops : list vop),
+  forallb is_observation obs = true ->
+  lib_vsession v (obs ++ ops) = map (vop_answer v) obs ++ lib_vsession v ops.
+Proof. exact vsession_observations_transparent. Qed.
+
+Theorem value_sat_stable : forall v (obs1 obs2 : list vop) d,
+  forallb is_observation obs1 = true ->
+  nth (List.length obs1) (lib_vsession v (obs1 ++ VSat :: obs2)) d = RSat (lib_value_sat v).
+Proof. exact vsession_sat_stable. Qed.
+
+(* 'mBTC' then 'MBTC' (and back) in one process; arithmetic on one object, observed in between *)
+Example conversion_session_example :
+  lib_conv_session [CVts (cps "1 mBTC") None; CVts (cps "1 MBTC") None; CVts (cps "1 mBTC") None; CRt 12345 (DSym (cps "c")) (cps "bitcoin")] =
+  [AZ (Ok 100000); AZ (Ok 100000000000000); AZ (Ok 100000); ASZ (Ok (cps "0.012345 cBTC", Ok 12345))].
+Proof. vm_compute. reflexivity. Qed.
+
+Example value_session_example :
+  match lib_value_default (cps "1.5 mBTC") with
+  | Ok v => map (fun a => match a with RSat r => r | RVal (Ok w) => lib_value_sat w | _ => Err end)
+                (lib_vsession v [VSat; VStr DNone None; VAdd (cps "100 sat"); VSat; VMul 3; VSat; VDiv 2; VSat]) =
+            [Ok 150000; Err; Ok 150100; Ok 150100; Ok 450300; Ok 450300; Ok 225150; Ok 225150]
+  | Err => False
+  end.
+Proof. vm_compute. reflexivity. Qed.
+
+(* ================= add_output(<Value object>) ================= *)
+
+(* the repaired code (fixes/C17-1) stores exactly value_sat of the object, of the transaction's own network *)
+Theorem add_output_value_exact : forall v name o,
+  lib_add_output_value true v name = Ok o ->
+  exists z, o = NInt z /\ lib_value_sat v = Ok z /\ str_eqb (n_name (v_net v)) name = true.
+Proof. exact add_output_value_repaired. Qed.
+
+(* the code as it is takes the amount in MAIN units: add_output(Value('1 BTC')) holds 1 smallest unit, and
+   Value('100 sat') is refused (class addoutput_value_units) *)
+Example addoutput_value_units_refuted :
+  match lib_value_default (cps "1 BTC"), lib_value_default (cps "100 sat") with
+  | Ok v, Ok w => lib_value_sat v = Ok 100000000 /\ lib_add_output_value false v (cps "bitcoin") = Ok (NInt 1) /\
+                  lib_add_output_value true v (cps "bitcoin") = Ok (NInt 100000000) /\
+                  lib_value_sat w = Ok 100 /\ lib_add_output_value false w (cps "bitcoin") = Err /\
+                  lib_add_output_value true w (cps "bitcoin") = Ok (NInt 100)
+  | _, _ => False
+  end.
+Proof. vm_compute. repeat split; reflexivity. Qed.
+
+(* ================= amounts of a Transaction object through amount-changing operations (Model/AmountTx.v) ================= *)
+Import Gen.GenNetworks Model.CoinSelect Model.TxCreate Model.BumpFee Proofs.BumpFee Model.AmountTx Proofs.AmountTx.
+
+(* bumpfee of the session model is the C07 function lib_bumpfee on the same attributes, so the C07 theorems
+   (bumpfee_no_negative_output, bumpfee_conserves, bumpfee_pays_extra) apply to every bump of a session *)
+Theorem session_bump_is_lib_bumpfee : forall nw name s fee extra vs mult vs' r s',
+  x_step nw name s (XBump fee extra vs mult vs') = (XOk r, s') ->
+  lib_bumpfee (to_btx s vs) fee extra mult = TxCreate.Ok (to_btx s' vs).
+Proof. exact x_bump_is_lib_bumpfee. Qed.
+
+(* after EVERY operation of a session of bumpfee (explicit fee / extra_fee) / update_totals / sign_and_update /
+   estimate_size / calculate_fee on a balanced transaction: every output value is an integer in 0 .. 2^64 - 1, the fee is a
+   non-negative integer, and inputs = outputs + fee *)
+Theorem session_amounts_nonnegative : forall nw name ops s a,
+  Forall xop_guarded ops -> x_wf s -> In a (x_run nw name s ops) ->
+  (forall o, In o (x_outs (snd a)) -> 0 <= o_value o < 2 ^ 64) /\ 0 <= x_fee (snd a) /\
+  sum_values (x_ins (snd a)) = sum_outs (x_outs (snd a)) + x_fee (snd a).
+Proof. exact x_session_amounts. Qed.
+
+(* a balanced transaction can always be re-signed: raw() never meets a negative output *)
+Theorem balanced_transaction_serialises : forall s vs, x_wf s -> fst (x_sign s vs) = XOk None /\ x_wf (snd (x_sign s vs)).
+Proof. exact x_sign_wf. Qed.
+
+(* whatever the session did before (add_output included): when sign_and_update succeeds, what raw() wrote are
+   integers in 0 .. 2^64 - 1 *)
+Theorem signed_outputs_in_range : forall s vs r s', x_sign s vs = (XOk r, s') ->
+  x_outs s' = x_outs s /\ forall o, In o (x_outs s') -> 0 <= o_value o < 2 ^ 64.
+Proof. exact x_sign_ok_range. Qed.
+
+(* the fee after a bump: at least what was asked for, at most twice the extra fee more than before (a change output
+   that would be left with less than the amount taken from it is dropped into the fee); inputs and payments untouched *)
+Theorem bumpfee_fee_bounds : forall nw name s fee extra vs mult vs' r s' nf ex,
+  x_wf s -> 0 <= vs -> fee <> 0 \/ extra <> 0 ->
+  bump_amounts (to_btx s vs) fee extra mult = TxCreate.Ok (nf, ex) ->
+  x_step nw name s (XBump fee extra vs mult vs') = (XOk r, s') ->
+  x_fee s + ex <= x_fee s' <= x_fee s + 2 * ex /\
+  x_ins s' = x_ins s /\
+  (forall x, In x (x_outs s') -> o_change x = false -> In x (x_outs s)).
+Proof. exact x_bump_fee_bounds. Qed.
+
+(* a first change output of more than twice the extra fee pays it alone and exactly *)
+Theorem bumpfee_exact_from_large_change : forall ex pre o post,
+  0 < ex -> Forall (fun x => o_change x = false) pre -> o_change o = true -> 2 * ex < o_value o ->
+  bump_loop true ex ex (pre ++ o :: post) = (0, pre ++ with_value o (o_value o - ex) :: post).
+Proof. exact bump_loop_first_change_covers. Qed.
+
+(* add_output of a non-negative amount followed by sign_and_update: the fee absorbs exactly that amount *)
+Theorem add_output_then_sign : forall s z chg vs r s',
+  x_wf s -> 0 <= z -> x_sign (x_append s z chg) vs = (XOk r, s') ->
+  x_fee s' = x_fee s - z /\ (forall o, In o (x_outs s') -> 0 <= o_value o < 2 ^ 64).
+Proof. exact x_add_then_sign. Qed.
+
+(* non-vacuity: the session of the recorded seed shape — change outputs 6000 and 9000, extra fee 10000 — in the model
+   of the code as it is (repaired loop): 6000 is used up, the remaining 4000 come out of 9000 *)
+Definition s_two_change : option xstate := x_init [200000] [(180000, false); (6000, true); (9000, true)].
+
+Example session_nonvacuous :
+  match s_two_change with
+  | Some s0 =>
+      map (fun a => (x_fee (snd a), map o_value (x_outs (snd a))))
+          (x_run nw_bitcoinlib_test (cps "bitcoinlib_test") s0
+                 [XSign 172; XBump 0 10000 172 (1, 1) 141; XUpdate 141; XCalc 12345 141; XSign 141]) =
+      [(5000, [180000; 6000; 9000]); (15000, [180000; 5000]); (15000, [180000; 5000]); (15000, [180000; 5000]);
+       (15000, [180000; 5000])]
+  | None => False
+  end.
+Proof. vm_compute. reflexivity. Qed.
+
+Example session_guard_satisfiable :
+  match s_two_change with
+  | Some s0 => 0 < sum_values (x_ins s0) < 2 ^ 64 /\ sum_values (x_ins s0) = sum_outs (x_outs s0) + x_fee s0 /\ 0 <= x_fee s0 /\
+               forallb (fun o => 0 <=? o_value o) (x_outs s0) = true
+  | None => False
+  end.
+Proof. vm_compute. repeat split; try reflexivity; discriminate. Qed.
+
+(* the statement [outp.value -= extra_fee] (before fixes/C07-3; seeded again as C17-c) drives the second change output
+   to -1000, raw() refuses the transaction; with change outputs 6000 and 50000 the fee paid is 21000 instead of 15000 *)
+Example bumpfee_deducts_total_extra_refuted :
+  bump_loop false 10000 10000 [{| o_dest := ToChange 0; o_value := 180000; o_change := false |};
+                               {| o_dest := ToChange 1; o_value := 6000; o_change := true |};
+                               {| o_dest := ToChange 2; o_value := 9000; o_change := true |}] =
+    (0, [{| o_dest := ToChange 0; o_value := 180000; o_change := false |};
+         {| o_dest := ToChange 2; o_value := -1000; o_change := true |}]) /\
+  map o_value (snd (bump_loop false 10000 10000 [{| o_dest := ToChange 0; o_value := 139000; o_change := false |};
+                               {| o_dest := ToChange 1; o_value := 6000; o_change := true |};
+                               {| o_dest := ToChange 2; o_value := 50000; o_change := true |}])) = [139000; 40000] /\
+  map o_value (snd (bump_loop true 10000 10000 [{| o_dest := ToChange 0; o_value := 139000; o_change := false |};
+                               {| o_dest := ToChange 1; o_value := 6000; o_change := true |};
+                               {| o_dest := ToChange 2; o_value := 50000; o_change := true |}])) = [139000; 46000].
+Proof. vm_compute. repeat split; reflexivity. Qed.
+
+(* add_output beyond the inputs, then sign_and_update: the Transaction object reports a NEGATIVE fee (class fee_negative) *)
+Example fee_negative_refuted :
+  match x_init [200000] [(100000, false)] with
+  | Some s0 =>
+      map (fun a => (fst a, x_fee (snd a)))
+          (x_run nw_bitcoin (cps "bitcoin") s0 [XSign 110; XAdd (NInt 500000) false; XSign 141]) =
+      [(XOk None, 100000); (XOk None, 100000); (XOk None, -400000)]
+  | None => False
+  end.
+Proof. vm_compute. reflexivity. Qed.
+
 Print Assumptions round_half_even_exact.
 Print Assumptions py_round_exact.
 Print Assumptions py_float_correctly_rounded.
@@ -199,3 +366,16 @@ Print Assumptions format_parse_roundtrip.
 Print Assumptions numeral_parse_exact.
 Print Assumptions outputs_are_integers.
 Print Assumptions add_output_holds_integer.
+Print Assumptions conversion_session_stateless.
+Print Assumptions btc_string_exact_in_session.
+Print Assumptions sat_string_exact_in_session.
+Print Assumptions value_observations_transparent.
+Print Assumptions value_sat_stable.
+Print Assumptions add_output_value_exact.
+Print Assumptions session_bump_is_lib_bumpfee.
+Print Assumptions session_amounts_nonnegative.
+Print Assumptions balanced_transaction_serialises.
+Print Assumptions signed_outputs_in_range.
+Print Assumptions bumpfee_fee_bounds.
+Print Assumptions bumpfee_exact_from_large_change.
+Print Assumptions add_output_then_sign.
